@@ -129,4 +129,77 @@ example : (replay (fun x => [x * 10]) (fun _ _ => (none : Option Nat)) (init [1,
     [.put, .get 0, .put, .get 1, .finish 1, .put, .get 1, .finish 0, .put, .put, .get 0, .finish 1, .get 1]).map
       (fun s => (s.handled, s.results)) = some ([[1], [2, 3]], [20, 10, 30]) := by decide
 
+/-! ## Calls one after the other, inputs that raise, and the regeneration caller -/
+
+/-- **a call is not affected by the calls before it**: in a process that has made any calls of `map_async` before — each
+with any input, any number of threads, ended in any way, also with its input iterable raising (which sets that call's
+kill event) — a call whose own input does not raise hands every one of its items to the worker function exactly once and
+returns every result, under every schedule. -/
+theorem later_call_every_item_once {α β : Type} (f : α → List β) (fin : Nat → List α → Option β)
+    (hist : List (Call α)) (c : Call α) (xs : XState α β) (hs : SessionReach f fin hist c xs)
+    (ht : XTerminal xs) (hk : xs.kill = false) (hn : c.n ≥ 1 ∨ c.items = []) :
+    EachOnce c.items xs.base ∧ ((∀ w l, fin w l = none) → ResultsComplete f c.items xs.base) := by
+  have hx := session_is_call f fin hist c xs hs
+  obtain ⟨hr, _⟩ := clean_is_base f fin c.items c.n xs hx hk
+  exact ⟨every_item_once f fin c.items c.n hn xs.base hr ht,
+    fun hfin => results_complete f fin hfin c.items c.n hn xs.base hr ht⟩
+
+/-- **a call whose input raises never hands an item to the worker function twice and invents none**: in every state
+reachable by any schedule, the items handled so far together with those still queued, in a worker's hands, not yet
+fed or never delivered are the input. -/
+theorem failed_call_at_most_once {α β : Type} (f : α → List β) (fin : Nat → List α → Option β) (items : List α) (n : Nat)
+    (xs : XState α β) (hr : XReachable f fin items n xs) : ∃ rest, (handledAll xs.base ++ rest).Perm items := by
+  have := (xinv_reachable f fin items n xs hr).1
+  refine ⟨busyItems xs.base.workers ++ queueItems xs.base.queue ++ xs.base.remaining ++ xs.dropped, ?_⟩
+  simpa [pool, List.append_assoc] using this
+
+/-- the kill event of a call is set only by that call's own input raising: a run without a `raise` step never has it
+set, and is a run of the plain system -/
+theorem kill_clear_is_plain_run {α β : Type} (f : α → List β) (fin : Nat → List α → Option β) (items : List α) (n : Nat)
+    (xs : XState α β) (hr : XReachable f fin items n xs) (hk : xs.kill = false) :
+    Reachable f fin items n xs.base ∧ xs.dropped = [] :=
+  clean_is_base f fin items n xs hr hk
+
+/-- a failing call, step by step: two workers, the iterable raises after two of three items; worker 1 had passed its
+test of the event and still takes item 2, worker 0 finds the event set and leaves; item 3 was never delivered -/
+example : (xreplay (fun x => [x * 10]) (fun _ _ => (none : Option Nat)) (xinit [1, 2, 3] 2)
+    [.base .put, .base (.get 0), .base .put, .raise, .base (.finish 0), .quit 0, .base (.get 1), .base .put,
+     .base (.finish 1), .base .put, .quit 1]).map
+      (fun s => (s.base.handled, s.base.results, s.kill, s.dropped, s.base.queue.length)) =
+      some ([[1], [2]], [10, 20], true, [3], 2) := by decide
+
+/-- … and the call after it starts clean -/
+example : SessionReach (fun x => [x * 10]) (fun _ _ => (none : Option Nat)) [⟨[], 0⟩] ⟨[7], 1⟩ (xinit [7] 1) :=
+  SessionReach.next (hist := []) ⟨[7], 1⟩ (SessionReach.first ⟨[], 0⟩) ⟨rfl, rfl, by intro w hw; cases hw⟩
+
+theorem flatMap_regenF {α ε : Type} (outcome : α → Option ε) (pkgs : List α) :
+    pkgs.flatMap (regenF outcome) = pkgs.filterMap (fun p => (outcome p).map (fun e => (p, e))) := by
+  induction pkgs with
+  | nil => rfl
+  | cons p ps ih =>
+    simp only [List.flatMap_cons, List.filterMap_cons, ih, regenF]
+    cases outcome p <;> simp
+
+/-- **metadata regeneration reaches every package**: `regen_repository` over any package list (sized or not), any
+`threads` argument and any schedule calls the regen helper on every package exactly once and yields exactly the
+`(pkg, exception)` pairs of the packages whose regeneration failed. -/
+theorem regen_every_pkg_once {α ε : Type} (outcome : α → Option ε) (pkgs : List α) (len : Option Nat)
+    (hlen : len = none ∨ len = some pkgs.length) (threads : Int) (s : State α (α × ε))
+    (hr : Reachable (regenF outcome) (fun _ _ => none) pkgs (parallelism len threads) s) (ht : Terminal s) :
+    EachOnce pkgs s ∧ s.results.Perm (pkgs.filterMap (fun p => (outcome p).map (fun e => (p, e)))) := by
+  have hn : parallelism len threads ≥ 1 ∨ pkgs = [] := by
+    cases pkgs with
+    | nil => exact Or.inr rfl
+    | cons x xs =>
+      left
+      refine (parallelism_enough len threads ?_).1
+      intro l hl
+      rcases hlen with h | h
+      · rw [h] at hl; cases hl
+      · rw [h] at hl; cases hl; simp
+  refine ⟨every_item_once _ _ pkgs _ hn s hr ht, ?_⟩
+  have := results_complete (regenF outcome) (fun _ _ => none) (fun _ _ => rfl) pkgs _ hn s hr ht
+  unfold ResultsComplete at this
+  rwa [flatMap_regenF] at this
+
 end Pkgcore.C41
